@@ -24,7 +24,7 @@ from autobean_refactor import editor as editor_lib, models, parser as parser_lib
 
 ID = 'C16'
 PROPERTY_FILE = 'Autobean/Properties/C16.lean'
-LEAN_TARGETS = ['Autobean.Properties.C16', 'Autobean.Obligations.Editor']
+LEAN_TARGETS = ['Autobean.Properties.C16', 'Autobean.Obligations.Editor', 'Autobean.Obligations.CachesEditor']
 RULE = ('random ledger trees in fresh temporary directories: 1-8 files in nested directories (contents from the ledger '
         'generator, LF or CRLF written in binary mode, with/without final newline), include directives forming nesting, '
         'globs (dir/*.bean, **/*.bean, ?-patterns), cycles, self-includes, diamonds, shared includes, duplicate include '
